@@ -123,10 +123,10 @@ def raced : Op → List Str
   | _ => []
 
 /-- Every (claims, API) pair the history must honour during and after one observed operation, and the claims in
-    force afterwards. `full = true` is the property at full strength under concurrency: a write-through `Save`
-    acknowledged while a flush is running is claimed persisted from then on. `full = false` claims nothing about
-    a condition saved inside the window of a running flush (until it is saved again). -/
-def checkObs (full : Bool) (g : Ghost) (o : Obs) : List (Ghost × Api) × Ghost :=
+    force afterwards. A call that ran inside the window of a flush claims what it claims anywhere else (a
+    write-through `Save` acknowledged while a flush is running is claimed persisted from then on); the flush
+    itself, when it answers nil, claims its snapshot except the conditions saved again inside its window. -/
+def checkObs (g : Ghost) (o : Obs) : List (Ghost × Api) × Ghost :=
   match o.op with
   | .plain op =>
     let a1 := annotate (ghostPre sh o.st op g) o.seg1
@@ -141,7 +141,7 @@ def checkObs (full : Bool) (g : Ghost) (o : Obs) : List (Ghost × Api) × Ghost 
       let a1 := annotate g o.seg1
       if o.ran then
         let a2 := annotate (ghostPre sh o.st intr a1.2) o.seg2
-        let gc := if full then ghostPost sh o.st intr o.ires a2.2 else a2.2
+        let gc := ghostPost sh o.st intr o.ires a2.2
         let a3 := annotate gc o.seg3
         let own := match intr with
           | .save _ _ => (ownEntries sh o.st).filter (fun e => ! (raced intr).contains e.2.name)
@@ -165,13 +165,13 @@ def observe (st : Store) (op : OpI) (w : World) : Obs × Store × World :=
        res := res, fin := w'.api }, st', w')
 
 /-- every (claims, API) pair of a whole history of the model -/
-def checkAll (full : Bool) : Store → Ghost → World → List OpI → List (Ghost × Api)
+def checkAll : Store → Ghost → World → List OpI → List (Ghost × Api)
   | _, _, _, [] => []
   | st, g, w, op :: ops =>
     match observe sh st op w with
     | (o, st', w') =>
-      let r := checkObs sh full g o
-      r.1 ++ checkAll full st' r.2 w' ops
+      let r := checkObs sh g o
+      r.1 ++ checkAll st' r.2 w' ops
 
 /-- "A server that gains a shard loads exactly the persisted conditions of that shard": what a fresh store for
     `shard` must hold after `Load()` answered nil on `api`. -/
